@@ -3,6 +3,8 @@
 package verifkit
 
 import (
+	"runtime/debug"
+	"os/signal"
 	"bufio"
 	"encoding/hex"
 	"fmt"
@@ -57,7 +59,7 @@ func (c *Child) start() error {
 	}
 	c.errPath = f.Name()
 	cmd := exec.Command(os.Args[0], "-test.run", "^TestVerif_Child$", "-test.timeout", "0")
-	cmd.Env = append(os.Environ(), childEnv+"="+c.kind, "VERIF_OUT=", "GORACE=", "GOTRACEBACK=crash")
+	cmd.Env = append(os.Environ(), childEnv+"="+c.kind, "VERIF_OUT=", "GORACE=")
 	cmd.Stderr = f
 	in, err := cmd.StdinPipe()
 	if err != nil {
@@ -138,6 +140,19 @@ func parseCrash(log string) *Crash {
 
 // Probe sends one payload and returns the child's answer, or the crash it caused.
 func (c *Child) Probe(payload []byte) (string, *Crash, error) {
+	// With the address space nearly used up by the input's allocations the runtime sometimes
+	// fails to create a thread (and aborts) before it fails to allocate: that says nothing about
+	// where the memory went, so the input is tried again in a fresh child.
+	for attempt := 0; ; attempt++ {
+		ans, crash, err := c.probeOnce(payload)
+		if crash != nil && attempt < 3 && (strings.Contains(crash.full, "pthread_create failed") || strings.Contains(crash.full, "failed to create new OS thread")) {
+			continue
+		}
+		return ans, crash, err
+	}
+}
+
+func (c *Child) probeOnce(payload []byte) (string, *Crash, error) {
 	if c.cmd == nil {
 		if err := c.start(); err != nil {
 			return "", nil, err
@@ -269,6 +284,17 @@ func (c *Child) died(how string) *Crash {
 // handler returns a short single-line answer; a panic inside it is reported as an answer
 // "PANIC <value> @ <frame>" (recoverable panics do not kill the child).
 func ServeChild(limitBytes uint64, handler func(payload []byte) string) {
+	// no core files; a SIGQUIT from the parent (input in flight does not terminate) switches to the
+	// traceback mode that also shows the stacks of goroutines running on other threads
+	syscall.Setrlimit(syscall.RLIMIT_CORE, &syscall.Rlimit{Cur: 0, Max: 0})
+	sigc := make(chan os.Signal, 1)
+	signal.Notify(sigc, syscall.SIGQUIT)
+	go func() {
+		<-sigc
+		debug.SetTraceback("crash")
+		signal.Reset(syscall.SIGQUIT)
+		syscall.Kill(os.Getpid(), syscall.SIGQUIT)
+	}()
 	// a child that spins on an input must not outlive a parent killed by the driver's watchdog
 	parent := os.Getppid()
 	go func() {
